@@ -113,8 +113,8 @@ def main(argv):
             verify(sid, props, tier, suite)
         return 0
     if argv and argv[0] == "table":
-        print("| seed | property | what was changed | needs to manifest | valid | detected by (quick tier) |")
-        print("|---|---|---|---|---|---|")
+        print("| seed | property | what was changed | needs to manifest | valid | found at first attempt | detected by (quick tier, now) |")
+        print("|---|---|---|---|---|---|---|")
         for sid in sorted(os.listdir(SEEDED)):
             mp = os.path.join(SEEDED, sid, "meta.json")
             if not os.path.exists(mp):
@@ -131,7 +131,7 @@ def main(argv):
                 t = " ".join(str(t).split())
                 return (t[:n] + "...") if len(t) > n else t
             print(f"| {sid} | {m.get('property')} | {cut(m.get('summary', ''), 170)} | {cut(m.get('needs_to_manifest', ''), 150)} | "
-                  f"{'yes' if c.get('valid_seed') else 'NO'} | {det}{' (`' + first + '`)' if first else ''} |")
+                  f"{'yes' if c.get('valid_seed') else 'no longer (see note)' if m.get('note') else 'NO'} | {'yes' if m.get('detected_at_first_attempt', True) else 'no (12.3)'} | {det}{' (`' + first + '`)' if first else ''} |")
         return 0
     print(__doc__)
     return 2
